@@ -212,6 +212,9 @@ func (eng *Engine) tagByName(name string) (int, bool) {
 			return eng.tagOf(tn.Type()), true
 		}
 	}
+	if tp, ok := eng.curTypeParams[name]; ok {
+		return eng.tagOf(tp), true
+	}
 	// resolve through loaded packages
 	for _, p := range eng.pkgs {
 		star := strings.HasPrefix(name, "*")
